@@ -22,7 +22,21 @@ RULES = ["determinism", "delivery", "chronology", "clock", "clock-restored"]
 MINIMA = {"quick": {"rule_determinism": 40, "rule_delivery": 500, "rule_chronology": 100, "rule_clock": 8000, "rule_clock-restored": 500}, "thorough": {"rule_determinism": 1500}}
 ASSUMPTIONS = ["delivery predictor B5 (status != OPEN always delivered; inplay / seconds_to_start / max_inplay_seconds as documented)", "fresh processes: PYTHONHASHSEED in {0,1,random}, wall clock shifted by years"]
 WATCHDOG = {"quick": 900, "thorough": 5400}
-FILTERS = [{}, {"inplay": True}, {"inplay": False}, {"seconds_to_start": 30}, {"seconds_to_start": 600}, {"max_inplay_seconds": 2}, {"inplay": True, "max_inplay_seconds": 5}, {"seconds_to_start": 120, "max_inplay_seconds": 1}]
+FILTERS = [
+    {},
+    {"inplay": True},
+    {"inplay": False},
+    {"seconds_to_start": 30},
+    {"seconds_to_start": 600},
+    {"max_inplay_seconds": 2},
+    {"inplay": True, "max_inplay_seconds": 5},
+    {"seconds_to_start": 120, "max_inplay_seconds": 1},
+    # boundary values: with 1 s spacing and market times a few seconds out, updates land exactly on the thresholds
+    {"seconds_to_start": 2},
+    {"seconds_to_start": 3},
+    {"seconds_to_start": 5, "max_inplay_seconds": 3},
+    {"max_inplay_seconds": 1},
+]
 
 
 def plan(tier, seed):
@@ -39,12 +53,21 @@ def build(desc):
     ev_proc = rng.random() < 0.6
     n_events = rng.choice((1, 1, 2))
     same_times = rng.random() < 0.3
+    boundary = rng.random() < 0.4
     markets, snaps = [], {}
     base = rng.randint(0, 9000) * 10
     for m in range(nm):
         mid = "1.2%08d" % (base + m)
         ev = "3000000%d" % (m % n_events)
-        mp = {"p_inplay": 0.7, "n_pre": (3, 12), "n_inplay": (0, 8), "p_suspend_reopen": 0.3, "spacing_ms": (1000,) if same_times else (1, 40, 250, 1000, 5000, 30000), "p_removal": 0.1}
+        mp = {
+            "p_inplay": 0.7,
+            "n_pre": (3, 12),
+            "n_inplay": (0, 8),
+            "p_suspend_reopen": 0.3,
+            "spacing_ms": (1000,) if (same_times or boundary) else (1, 40, 250, 1000, 5000, 30000),
+            "p_removal": 0.1,
+            "market_time_offsets": (4_000, 6_000, 9_000, 30_000) if boundary else (30_000, 600_000),
+        }
         d = G.Director(rng, mid, mp, event_id=ev, t0=G.T0 + (0 if (ev_proc or same_times) else m * 3_600_000))
         mf = d.run()
         markets.append({"id": mid, "text": mf.text()})
